@@ -40,7 +40,7 @@ def check_case(case):
     def v(key, what, **kw):
         out.append({"key": key, "what": what, "case": dict(case, **kw)})
     try:
-        o = SP(seq)
+        o = core.sp(seq)
         k = o.get_kappa()
         d = o.get_delta()
         m = o.get_deltaMax()
